@@ -1,7 +1,7 @@
 (* C08: today's behaviour that violates the property, on the `_current` variant of the model.
    eval_query_current mirrors FillTransform: fill(previous) of a descending query is computed in iteration order. *)
 From Coq Require Import ZArith List Bool.
-From OG Require Import C08.Model C08.Proofs C08.Rpn.
+From OG Require Import C08.Model C08.Proofs C08.Rpn C08.Prune.
 Import ListNotations.
 Open Scope Z_scope.
 
@@ -52,3 +52,11 @@ Theorem C08_rpn_two_stack_refuted : exists (holds : nat -> bool) (t : @ctree nat
   run2 holds (rpn t) <> Some ([], [teval holds t]).
 Proof. exact rpn_two_stack_refuted. Qed.
 Print Assumptions C08_rpn_two_stack_refuted.
+
+(* series pruning under LIMIT today (finding C08-limit-prune-time-range): the key of a series is the bound of its first
+   chunk overlapping the range, not clipped to the range; a series with an older point displaces the series that holds the
+   first row *)
+Theorem C08_limit_prune_current_refuted :
+  limit_answer 1 (prune_current 1 [wA; wB]) <> limit_answer 1 (map snd [wA; wB]).
+Proof. exact prune_current_refuted. Qed.
+Print Assumptions C08_limit_prune_current_refuted.
